@@ -131,6 +131,20 @@ def run(ctx):
             extra = sorted(o for o in per if o not in exp and per[o] and per[o] <= got and not per[o] <= exp_keys)
             report_violation(ctx, "icu:data-keys-differ", {"case": project_text(p), "expected_options": sorted(exp), "missing_options": missing,
                                                           "unexpected_options": extra, "plan": p.get("icu"), "implementation_keys": sorted(got)[:12]})
+        # the datagen drivers: the keys of the translations, plus exactly the additional ones the build script supplies
+        drv = r.get("drivers")
+        if isinstance(drv, dict) and drv.get("panic"):
+            report_violation(ctx, "icu:datagen-driver-panics", {"case": project_text(p)})
+        elif isinstance(drv, dict):
+            for name, ks in drv.items():
+                extra = per[name.split(":", 1)[1]] if ":" in name else set()
+                ctx.count("driver:" + name.split(":")[0])
+                if set(ks) != exp_keys | extra:
+                    report_violation(ctx, "icu:datagen-driver-keys-differ", {
+                        "case": project_text(p), "driver": name, "expected_by_spec": sorted(exp_keys | extra), "implementation": sorted(ks),
+                        "why": "the driver is configured with the data keys the translations use and the additional ones supplied, nothing else",
+                        "harness": "build_h icu (build_datagen_driver*, keys read off the driver's Debug form)"})
+                    break
         cfg = po["impl"].get("cfg")
         if cfg and r["locales"] != cfg["locales"]:
             report_violation(ctx, "icu:locales-differ", {"case": project_text(p), "expected_by_spec": cfg["locales"], "implementation": r["locales"]})
